@@ -14,7 +14,7 @@ RULE = ("one case = one (24-bit event-space frame, instance map) decoded by the 
 ASSUMPTIONS = ["models/events_ref.py transcribes 103 Table 3 and the event-information tables of parts 301/303/304"]
 EXHAUSTIVE = {"quick": False, "thorough": True}
 REQUIRED_ANCHORS = {"all": ["events_sliced", "non_events", "map_hits", "map_misses", "retry_checked",
-                            "map_builders_compared"]}
+                            "map_builders_compared", "import_surface_checked"]}
 SHARD_TIMEOUT = {"quick": 600, "thorough": 3000}
 
 
@@ -405,6 +405,53 @@ def run_user_events(seed, res):
     res.sample({"user_events": "VendorUnknown(UnknownEvent), VendorEventBase(_Event), Vendor6Event(type 6)", "probes": len(probes)})
 
 
+def run_import_surface(res):
+    """What an application gets from `import dali.device` alone: the event classes of parts 301, 303 and 304 are registered
+    (they register themselves when their module is imported - by the package, not by whoever happens to name them)."""
+    import subprocess
+    import sys
+    import json
+    import os
+    code = r'''
+import sys, json
+sys.path.insert(0, sys.argv[1]); sys.path.insert(0, sys.argv[2])
+import dali.device                      # the package, nothing more
+from dali import command, frame
+from dali.device.helpers import DeviceInstanceTypeMapper
+from models import events_ref as E
+bad = []
+m = DeviceInstanceTypeMapper()
+for t, n in ((1, 1), (3, 3), (4, 4)):
+    m.add_type(short_address=5, instance_number=n, instance_type=t)
+for itype, datas in ((1, (0, 1, 2, 5, 9, 11, 12, 13, 14, 15, 700)), (3, (0, 3, 10, 15, 16)), (4, (0, 1, 512, 1023)), (2, (0, 7)), (6, (1,))):
+    for data in datas:
+        for scheme in ("device", "device_group", "instance", "instance_group", "device_instance"):
+            v = E.encode_event(scheme, itype, data, short_address=5, instance_number=itype if scheme == "device_instance" else 2,
+                               device_group=3, instance_group=4)
+            if scheme == "device_instance" and itype not in (1, 3, 4):
+                continue
+            back = command.from_frame(frame.ForwardFrame(24, v), dev_inst_map=m if scheme == "device_instance" else None)
+            want = E.event_class(itype, data)
+            if type(back).__name__ != want:
+                bad.append([hex(v), scheme, itype, data, type(back).__name__, want])
+print(json.dumps({"bad": bad, "modules": sorted(x for x in sys.modules if x.startswith("dali."))}))
+'''
+    here = os.path.dirname(os.path.dirname(os.path.abspath(__file__)))
+    repo = os.environ.get("VERIF_REPO", "/repo")
+    p = subprocess.run([sys.executable, "-B", "-c", code, here, repo], capture_output=True, text=True, timeout=300)
+    res.evaluations += 1
+    res.hit("import_surface_checked")
+    if p.returncode != 0:
+        res.inconclusive.append("import-surface probe failed: " + p.stderr[-400:])
+        return
+    info = json.loads(p.stdout.strip().splitlines()[-1])
+    for v, scheme, itype, data, got, want in info["bad"][:4]:
+        res.violation(f"C12/import-surface/{want}", f"after `import dali.device` alone, frame {v} ({scheme} scheme, instance type {itype}, "
+                      f"info {data:#x}) decodes as {got}, the standard's tables give {want} ({len(info['bad'])} probes affected; "
+                      f"modules loaded: {[m_ for m_ in info['modules'] if m_.startswith('dali.device')]})",
+                      {"frame": v, "modules_loaded": info["modules"]})
+
+
 def run_shard(desc, tier, seed):
     res = Result()
     if "replay" in desc:
@@ -422,6 +469,7 @@ def run_shard(desc, tier, seed):
         run_maps(desc, tier, seed, res)
     elif k == "user-events":
         run_user_events(seed, res)
+        run_import_surface(res)
     else:
         run_builders(seed, res)
     return res
